@@ -4,8 +4,9 @@
     description of the KV cache interface (kvcache.Cache as implemented by kvcache.Causal without window:
     StartForward/Put, Remove, CopyPrefix, CanResume).  Definitions only; proofs are in Proofs*.v.
 
-    The model describes the code WITH fixes/C07-shift-reset.patch applied (ShiftCacheSlot clears the sequence
-    with Remove(seq, 0, math.MaxInt32) when the shift fails).  [shift_cache_slot_pinned] keeps the pinned
+    The model describes the code WITH fixes/C07-shift-reset.patch (ShiftCacheSlot clears the sequence with
+    Remove(seq, 0, math.MaxInt32) when the shift fails) and fixes/C07-stop-trim-negative.patch (the stop handling
+    of processBatch clamps the trimmed length at 0) applied.  [shift_cache_slot_pinned] keeps the pinned
     behaviour, to state what the repair changed. *)
 From Coq Require Import List ZArith NArith Bool Arith.
 From V Require Import Common.Bytes Runner.Stop.
@@ -464,10 +465,11 @@ Section WithNetwork.
               let '(pend', trunc) := truncate_stop pend stop in
               let origLen := zlen pend in
               let newLen := zlen pend' in
-              let tokenLen := zlen C + 1 - (origLen - newLen) - (if trunc || (origLen =? newLen) then 1 else 0) in
-              if tokenLen <? 0 then QPanic
-              else QOk (released (with_inputs s1 (firstn (Z.to_nat tokenLen) C))) None
-                       [EvSample (q_req q) t vis; EvDone (q_req q) DoneStop]
+              (* clamped at 0 by fixes/C07-stop-trim-negative.patch: after a context shift the stop sequence can span
+                 more tokens than the cache record holds (the pinned code panics on the negative slice bound) *)
+              let tokenLen := Z.max 0 (zlen C + 1 - (origLen - newLen) - (if trunc || (origLen =? newLen) then 1 else 0)) in
+              QOk (released (with_inputs s1 (firstn (Z.to_nat tokenLen) C))) None
+                  [EvSample (q_req q) t vis; EvDone (q_req q) DoneStop]
           | None =>
               let keep_pending := contains_stop_suffix sq (q_stops q) || incomplete_unicode sq in
               QOk s1 (Some (mkSeq [t] [] (q_slot q) (q_npredict q) np (q_keep q) (if keep_pending then pend else []) (q_stops q)
